@@ -74,7 +74,7 @@ class Domain(object):
             if kfl == "int":
                 ks = list(range(-(nk // 3), nk - nk // 3))
             elif kfl == "str":
-                ks = ["k%03d" % i for i in range(nk)]
+                ks = ["k%05d" % i for i in range(nk)]
             elif kfl == "tuple":
                 ks = [(i // 3, i % 3) for i in range(nk)]
             elif kfl == "hk":
